@@ -11,12 +11,52 @@ RULE = ("inputs = shipped curated reactions that the independent oracle finds ba
         "inputs for the converse; distinct non-trivial = distinct balanced inputs by canonical fragment "
         "multisets of both sides")
 ASSUMPTIONS = ["'balanced' is decided by the independent RDKit composition oracle",
-               "radical / dummy-atom inputs are out of domain"]
+               "radical / dummy-atom inputs are out of domain, except lone [H] atoms (the tool's own placeholder for reducing equivalents)"]
 TIMEOUT = {"quick": 900, "thorough": 3000}
 CFGS = [
     {"batch_size": None, "threshold": 0, "n_jobs": 1},
     {"batch_size": 9, "threshold": 0, "n_jobs": 1},
 ]
+
+
+REDOX_SPELLED_WITH_ATOMS = [
+    "CC=O.[H].[H]>>CCO", "CC(C)=O.[H].[H]>>CC(C)O", "C=C.[H].[H]>>CC", "CC(=O)OC.[H].[H].[H].[H]>>CCO.CO",
+    "CC#N.[H].[H].[H].[H]>>CCN", "O=Cc1ccccc1.[H].[H]>>OCc1ccccc1", "CC(=O)O.[H].[H].[H].[H]>>CCO.O",
+    "[H].[H]>>[H][H]", "CC=O.[H]>>CC=O.[H]", "CC.[H].[H]>>[H][H].CC",
+    "CCC(=O)CC.[H].[H]>>CCC(O)CC", "C#C.[H].[H].[H].[H]>>CC", "O=[N+]([O-])c1ccccc1.[H].[H].[H].[H].[H].[H]>>Nc1ccccc1.O.O",
+]
+
+def placeholder_balanced(rng, pick, n):
+    """balanced reactions in which reducing equivalents are spelled as lone hydrogen atoms ([H]) - the spelling the
+    tool itself uses for them; the only open-shell species admitted to this check (a lone [O] in an input is re-read as
+    water by the atom-map stripper, see C15's closed-shell restriction, and stays outside the domain)"""
+    out = [("redox_atoms", rx) for rx in REDOX_SPELLED_WITH_ATOMS]
+    for t, rx in rng.sample(pick, min(n, len(pick))):
+        a, _, b = rx.partition(">>")
+        k = rng.choice([0, 1, 2])
+        if k == 0:
+            out.append((t + "|+2[H]", a + ".[H].[H]>>" + b + ".[H][H]"))
+        elif k == 1:
+            out.append((t + "|+[H]", a + ".[H]>>[H]." + b))
+        else:
+            out.append((t + "|[H]+4[H]", "[H]." + a + ".[H].[H].[H]>>[H][H]." + b + ".[H][H]"))
+    return [p for p in out if oracle.balanced(p[1])]
+
+
+def placeholder_only(raw):
+    """every open-shell molecule of the reaction is a lone [H] atom"""
+    sp = oracle.split_rsmi(raw)
+    if sp is None:
+        return False
+    seen = False
+    for side in sp:
+        for m in side.split("."):
+            if oracle.in_domain_smiles(m):
+                continue
+            if oracle.demap(m) != "[H]":
+                return False
+            seen = True
+    return seen
 
 
 def plan(tier, seed):
@@ -33,6 +73,7 @@ def plan(tier, seed):
     pairs += [p for p in G.dative(rng, 80 if q else 600) if oracle.balanced(p[1])]
     pairs += [p for p in G.dot_ring_closures(rng, 60 if q else 400) if oracle.balanced(p[1])]
     cases = rowlib.gen_cases(pairs, 30, CFGS, "bal")
+    cases += rowlib.gen_cases(placeholder_balanced(rng, pick, 60 if q else 600), 10, CFGS, "atoms")
     # families in one batch: a reaction next to its own multiples and reversal (sides that consist of the same
     # molecule strings with other multiplicities meet in one batch)
     fam = []
@@ -59,8 +100,10 @@ def judge(case, out, res):
     for pos, (inp, row) in enumerate(zip(case["inputs"], out["rows"])):
         raw = rowlib.raw_of(inp)
         if not oracle.in_domain_rsmi(raw):
-            res.count("out_of_domain")
-            continue
+            if not placeholder_only(raw):
+                res.count("out_of_domain")
+                continue
+            res.count("inputs_with_lone_H_atoms")
         res.ev()
         bal = oracle.balanced(raw)
         ir, rx, by = row.get("input_reaction"), row.get("reaction"), row.get("solved_by")
